@@ -115,6 +115,15 @@ def _lattice(rng, tier):
                    for t in fml.split("+") if t.strip() != "0"]
             out.append({"formula": "y ~ " + fml, "frame": fr, "na": "drop", "kind": "shared-encoder", "family": fam,
                         "icpt": icpt, "shared_enc": True})
+    # an interaction is a SET of factors: a factor written twice in one term counts once (f:g:f is f:g, x:f:x is f:x)
+    for fml, fam, icpt in [("y ~ f:g:f", [["f", "g"]], True), ("y ~ 0 + f:g:f", [["f", "g"]], False),
+                           ("y ~ g + g:f:g", [["g"], ["g", "f"]], True), ("y ~ (f + g):f", [["f"], ["g", "f"]], True),
+                           ("y ~ x + f:x:f", [["x"], ["f", "x"]], True), ("y ~ 0 + x:f:x", [["x", "f"]], False),
+                           ("y ~ f + f:g:h:g", [["f"], ["f", "g", "h"]], True)]:
+        nlev = {"f": rng.choice([2, 3]), "g": rng.choice([2, 3]), "h": 2}
+        fr = gen_dm.make_frame(rng, factorial=True, cats=["f", "g", "h"], nlev=nlev, extra_cols=False, reps=3)
+        out.append({"formula": fml, "frame": fr, "na": "drop", "kind": "repeated-factor", "family": fam, "icpt": icpt,
+                    "names": [":".join(t) for t in fam]})
     four = list(fams(("f", "g", "h", "c")))
     if tier != "thorough":
         four = rng.sample(four, 300)
@@ -346,7 +355,7 @@ def oracle(c):
     X = np.asarray(d.common.design_matrix, dtype=float)
     # the formula's own terms (extra helper terms added by formulae are not part of the model space)
     own = [":".join(t) for t in []]
-    names = [t.strip() for t in c["formula"].split("~", 1)[1].split("+") if t.strip() not in ("0", "1")]
+    names = c.get("names") or [t.strip() for t in c["formula"].split("~", 1)[1].split("+") if t.strip() not in ("0", "1")]
     try:
         R = reference_matrix(c, df, names)
     except Exception:
